@@ -16,7 +16,8 @@ func main() {
 		core.Fatal("harness assumption broken: context.WithTimeout(1ns) is not done on return")
 	}
 	scenarios := handoffScenarios()
-	jarDepth, jarAlpha := 4, jarAlphabet(false)
+	// quick: depth 4 over the extended alphabet; thorough: depth 5 over the base alphabet plus depth 4 over the extended one
+	jarDepth, jarAlpha := 4, jarAlphabet(true)
 	if !r.Quick() {
 		jarDepth = 5
 	}
@@ -37,7 +38,9 @@ func main() {
 		cov := schedx.Coverage(r, scenarios, map[string]any{
 			"fidelity_evaluations": r.P.Counters["fid_evaluations"], "fidelity_nontrivial": r.P.Counters["fid_nontrivial"],
 			"config_sequence_evaluations": r.P.Counters["cfgseq_evaluations"], "config_sequence_multi_call": r.P.Counters["cfgseq_multi_call"], "file_reader_evaluations": r.P.Counters["reader_evaluations"], "file_reader_fault_evaluations": r.P.Counters["reader_fault_evaluations"],
-			"jar_depth": jarDepth, "jar_alphabet": fmt.Sprint(jarAlpha), "jar_histories": r.P.Counters["jar_histories"], "jar_unreproduced": r.P.Counters["jar_unreproduced"],
+			"spelling_evaluations": r.P.Counters["spelling_evaluations"], "spelling_nontrivial": r.P.Counters["spelling_nontrivial"],
+			"reuse_evaluations": r.P.Counters["reuse_evaluations"], "reuse_nontrivial": r.P.Counters["reuse_nontrivial"], "reuse_same_request_object": r.P.Counters["reuse_same_request_object"], "reuse_response_object_recycled_at_least_once": r.P.Counters["reuse_same_response_object_seen"] > 0,
+			"jar_depth": jarDepth, "jar_alphabet": fmt.Sprint(jarAlpha), "jar_extension_letters": fmt.Sprint(jarExtension()), "jar_histories_with_extension_letter": r.P.Counters["jar_histories_ext"], "jar_judged_without_gate": r.P.Counters["jar_judged_without_gate"], "jar_histories": r.P.Counters["jar_histories"], "jar_unreproduced": r.P.Counters["jar_unreproduced"],
 			"rule": "Part C: all interleavings (within the stated preemption / select-choice bounds) of caller threads, execFunc's worker goroutine, response arrival, transport failure and context cancellation at the scheduling points done-flag CAS/Swap, pool Get/Put (errChan, Response, Request), channel send/receive/select readiness, client mutex operations, and the round-tripper seam; oracle: every (resp, nil) carries echo(id) of its own request, errors are ErrTimeoutOrCancel only after a cancel and the injected transport error only for the failed request, no blocked goroutine, pooled response clean in the probe phase",
 		})
 		r.Finish(core.Evidence{Level: "model_checking", Exhaustive: true, Coverage: cov,
@@ -58,9 +61,23 @@ func main() {
 		}
 		runCfgSequences(r, seqDepth)
 		runReaderBehaviours(r)
+		runReuse(r)
+		runSpellings(r)
 		lap("fidelity")
 	}
-	enumerateJar(r, jarDepth, jarAlpha)
+	if r.Quick() {
+		enumerateJar(r, jarDepth, jarAlpha, nil)
+	} else {
+		enumerateJar(r, jarDepth, jarAlphabet(false), nil)
+		enumerateJar(r, 4, jarAlpha, func(ops []jop) bool { // histories without an extension letter are prefixes of the depth-5 ones
+			for _, o := range ops {
+				if isJarExtension(o) {
+					return false
+				}
+			}
+			return true
+		})
+	}
 	lap("jar")
 	schedx.RunAll(r, scenarios, 0)
 	lap("handoff")
